@@ -6,6 +6,20 @@ import os
 ROOT = os.path.dirname(os.path.dirname(os.path.abspath(__file__)))
 
 CHECKS = {
+    'C09': ('model_checking', '§7 C09',
+            'KevoWal models writer fragmentation and reader reassembly at record grain over 16 named shape classes (record-size boundaries, '
+            'fragmented keys, batches below/above the buffer, rotation, reuse); TLC checks ReplayIsAppended, FromIsSuffix, SeqUp, NextMatchesLog. '
+            'TLC-generated behaviours with predicted ReplayWALDir / ReplayWALFile / GetEntriesFrom(s) results are replayed on the wal package '
+            'directly with byte-exact comparison under 3 byte styles x 3 sync modes (thorough: full boundary sweep of payload lengths).',
+            'byte exactness is sampling over the shape classes; one sequential caller; OS/crash state is C02',
+            'TLC MC + replay of generated behaviours on the wal package with byte comparison'),
+    'C10': ('fault_enumeration', '§7 C10',
+            'KevoWalReader (reader with StopAtDamage, reuse decision, post-recovery appends, second replay) is model-checked for every '
+            'cut/flip descriptor: DeliveredIsSubSeq, FirstReplayRecoversPrefix, SecondReplay, FilesKept. On real logs written by the real '
+            'writer EVERY truncation offset and, per byte, three corruptions are applied; the engine is opened, projected, written to, closed, '
+            'opened again; each outcome is one trace line judged by TLC (TRACE_WalReader) with the specification\'s own operators.',
+            'one damage per run; CRC collisions ignored; payload interior of files above 4 KB sampled; header type/length bytes are outside the checksum (format)',
+            'TLC MC + exhaustive fault enumeration on real files judged by TLC trace validation'),
     'C18': ('model_checking', '§7 C18',
             'KevoMem models the skiplist at pointer level: Insert as PickHeight, RaiseMax, FindPreds and per level LinkNodeNext/LinkPredNext; '
             'readers (Find, Seek, SeekToFirst, Next with snapshot visibility) take one pointer load per step. TLC checks Level0Sorted, '
